@@ -238,11 +238,7 @@ def copyV : Nat → Value → EM Value
             pure (.err (← liftM (alloc (.err c))))
         | _ => eUnsup "bad error ref"
     | .fn _ => eUnsup "copy of a function"
-    | .cfn r => do
-        -- CompiledFunction.Copy: a new function object sharing the captured cells
-        match ← liftM (getObj r) with
-        | .cfn k free => pure (.cfn (← liftM (alloc (.cfn k free))))
-        | _ => eUnsup "bad function ref"
+    | .cfn _ => eUnsup "copy of a compiled function"   -- function objects live in the VM's own store
     | .builtin _ => eUnsup "copy of a builtin"     -- Go returns a fresh BuiltinFunction; identity is not observable
     | v => pure v
 
